@@ -22,6 +22,7 @@ structure Sim (d : Disk) (s : State) : Prop where
   lastSeq : d.lastSeq = s.lastSeq
   txIdx : d.txIdx = s.txIdx
   roots : ∀ x ∈ s.best, d.roots x.id = true
+  recSeq : d.recSeq = s.recSeq
 
 /-- `s'` has the same durable tables and the same best chain as `s`. -/
 structure SameDur (s s' : State) : Prop where
@@ -34,13 +35,14 @@ structure SameDur (s s' : State) : Prop where
   lastSeq : s'.lastSeq = s.lastSeq
   txIdx : s'.txIdx = s.txIdx
   best : s'.best = s.best
+  recSeq : s'.recSeq = s.recSeq
 
-theorem SameDur.refl (s : State) : SameDur s s := ⟨rfl, rfl, rfl, rfl, rfl, rfl, rfl, rfl, rfl⟩
+theorem SameDur.refl (s : State) : SameDur s s := ⟨rfl, rfl, rfl, rfl, rfl, rfl, rfl, rfl, rfl, rfl⟩
 
 theorem Sim.frame {d : Disk} {s s' : State} (h : Sim d s) (e : SameDur s s') : Sim d s' :=
   ⟨h.stored.trans e.stored.symm, h.tds.trans e.tds.symm, h.h2h.trans e.h2h.symm, h.last.trans e.last.symm,
    h.seqTab.trans e.seqTab.symm, h.hashSeq.trans e.hashSeq.symm, h.lastSeq.trans e.lastSeq.symm,
-   h.txIdx.trans e.txIdx.symm, fun x hx => h.roots x (e.best ▸ hx)⟩
+   h.txIdx.trans e.txIdx.symm, fun x hx => h.roots x (e.best ▸ hx), h.recSeq.trans e.recSeq.symm⟩
 
 def writes (tr : Trace) : List Write := tr.map (·.1)
 
@@ -90,7 +92,7 @@ def orElse (r : Except Err State) (s : State) : State :=
 
 theorem sim_state {d : Disk} {s : State} {b tip : Block} {rest : List Block} (h : Sim d s)
     (hb : s.best = tip :: rest) (hp : b.parent = tip.id) : Sim (apply d (.state b)) s := by
-  refine ⟨h.stored, h.tds, h.h2h, h.last, h.seqTab, h.hashSeq, h.lastSeq, h.txIdx, ?_⟩
+  refine ⟨h.stored, h.tds, h.h2h, h.last, h.seqTab, h.hashSeq, h.lastSeq, h.txIdx, ?_, h.recSeq⟩
   intro x hx
   show setRoot d.roots b.id (d.roots b.parent) x.id = true
   unfold setRoot
@@ -123,14 +125,14 @@ theorem sim_connect {d : Disk} {s s1 : State} {b : Block} {ptd : Nat} (h : Sim d
     exact ⟨by simp [apply, applySeq, h.stored], by simp [apply, applySeq, h.tds], by simp [apply, applySeq, h.h2h],
       by simp [apply, applySeq], by simp [apply, applySeq, h.seqTab], by simp [apply, applySeq, h.hashSeq],
       by simp [apply, applySeq, h.lastSeq], by simp [apply, applySeq, h.txIdx],
-      by simpa [apply, applySeq, hs1] using hroots⟩
+      by simpa [apply, applySeq, hs1] using hroots, by simp [apply, applySeq, h.recSeq]⟩
   · have hn : nextSeq s = some (s.lastSeq + 1) := by simp [nextSeq, hr]
     rw [hn, hs1, hsq']
     exact ⟨by simp [apply, applySeq, seqAfter, h.stored], by simp [apply, applySeq, seqAfter, h.tds],
       by simp [apply, applySeq, seqAfter, h.h2h], by simp [apply, applySeq, seqAfter],
       by simp [apply, applySeq, seqAfter, h.seqTab], by simp [apply, applySeq, seqAfter, h.hashSeq],
       by simp [apply, applySeq, seqAfter], by simp [apply, applySeq, seqAfter, h.txIdx],
-      by simpa [apply, applySeq, seqAfter, hs1] using hroots⟩
+      by simpa [apply, applySeq, seqAfter, hs1] using hroots, by simp [apply, applySeq, seqAfter, h.recSeq]⟩
 
 theorem sim_disconnect {d : Disk} {s s1 : State} {b : Block} (h : Sim d s)
     (hc : disconnectBlock s b = .ok s1) : Sim (apply d (.disconnect b (nextSeq s))) s1 := by
@@ -145,14 +147,14 @@ theorem sim_disconnect {d : Disk} {s s1 : State} {b : Block} (h : Sim d s)
     exact ⟨by simp [apply, applySeq, h.stored], by simp [apply, applySeq, h.tds], by simp [apply, applySeq, h.h2h],
       by simp [apply, applySeq], by simp [apply, applySeq, h.seqTab], by simp [apply, applySeq, h.hashSeq],
       by simp [apply, applySeq, h.lastSeq], by simp [apply, applySeq, h.txIdx],
-      by simpa [apply, applySeq, hs1] using hroots⟩
+      by simpa [apply, applySeq, hs1] using hroots, by simp [apply, applySeq, h.recSeq]⟩
   · have hn : nextSeq s = some (s.lastSeq + 1) := by simp [nextSeq, hr]
     rw [hn, hs1, hsq']
     exact ⟨by simp [apply, applySeq, seqAfter, h.stored], by simp [apply, applySeq, seqAfter, h.tds],
       by simp [apply, applySeq, seqAfter, h.h2h], by simp [apply, applySeq, seqAfter],
       by simp [apply, applySeq, seqAfter, h.seqTab], by simp [apply, applySeq, seqAfter, h.hashSeq],
       by simp [apply, applySeq, seqAfter], by simp [apply, applySeq, seqAfter, h.txIdx],
-      by simpa [apply, applySeq, seqAfter, hs1] using hroots⟩
+      by simpa [apply, applySeq, seqAfter, hs1] using hroots, by simp [apply, applySeq, seqAfter, h.recSeq]⟩
 
 theorem connectBlockT_ok {d : Disk} {s : State} (b : Block) (h : Sim d s) :
     Ok d (connectBlockT s b) (orElse (connectBlock s b) s) := by
@@ -228,7 +230,7 @@ theorem sameDur_resetFin (s : State) (f : Option Block) : SameDur s (resetFin s 
   unfold resetFin
   split
   · split
-    · exact ⟨rfl, rfl, rfl, rfl, rfl, rfl, rfl, rfl, rfl⟩
+    · exact ⟨rfl, rfl, rfl, rfl, rfl, rfl, rfl, rfl, rfl, rfl⟩
     · exact SameDur.refl s
   · exact SameDur.refl s
 
@@ -297,18 +299,18 @@ theorem storeBlockT_ok {d : Disk} {s s1 : State} (b : Block) (h : Sim d s) (hs :
       have h2 : Sim (apply d (.store b (b.diff + ptd))) s1 := by
         rw [e]
         exact ⟨by simp [apply, h.stored], by simp [apply, h.tds], h.h2h, h.last, h.seqTab, h.hashSeq, h.lastSeq,
-          h.txIdx, h.roots⟩
+          h.txIdx, h.roots, h.recSeq⟩
       rw [← e]
       exact ⟨⟨h2, trivial⟩, h2⟩
 
 theorem sameDur_addIndex (s : State) (b : Block) : SameDur s (addIndex s b) :=
-  ⟨rfl, rfl, rfl, rfl, rfl, rfl, rfl, rfl, rfl⟩
+  ⟨rfl, rfl, rfl, rfl, rfl, rfl, rfl, rfl, rfl, rfl⟩
 
 theorem sameDur_dropOrphan (s : State) (id : Nat) : SameDur s (dropOrphan s id) :=
-  ⟨rfl, rfl, rfl, rfl, rfl, rfl, rfl, rfl, rfl⟩
+  ⟨rfl, rfl, rfl, rfl, rfl, rfl, rfl, rfl, rfl, rfl⟩
 
 theorem sameDur_addOrphan (s : State) (b : Block) : SameDur s (addOrphan s b) :=
-  ⟨rfl, rfl, rfl, rfl, rfl, rfl, rfl, rfl, rfl⟩
+  ⟨rfl, rfl, rfl, rfl, rfl, rfl, rfl, rfl, rfl, rfl⟩
 
 theorem sameDur_unorphan (s : State) (b : Block) : SameDur s (unorphan s b) := by
   unfold unorphan
